@@ -26,6 +26,7 @@ LEVEL_TEXT = (
     "(including REFMASKED, ALT-less and SNV-less records) are piped through call and call-exact: CHROM/POS/REF/ALT preserved, "
     "every genotype complete unless NOA/AF0, and assemble's SNVPOS contains the polymorphic columns of its REF/ALT."
 )
+LEVEL_TEXT += ' Session 3: mixed-ploidy pipelines with a per-sample ploidy file.'
 LEVEL_NOTE = "Trusts pysam's VCF reader (it is part of the product's input path) and the independent text parser in vlib/vcfparse.py."
 RULE = (
     "case = one generated haplotype record (function level) or one (dataset, program) pipeline run; non-trivial = record with >=1 ALT "
